@@ -53,7 +53,9 @@ def run(ctx):
         off = rng.randrange(3)
         fs = [("target", (r + 320) / 10.0) for r in range(270 + (0 if ctx.thorough else off), 721, 1 if ctx.thorough else 3)]
         cs = [("target", r / 18.0) for r in range(270 + off, 721, 9 if ctx.thorough else 27)]
-        return [("unit", False)] + fs + [("unit", True)] + cs
+        # every pump: up, then off again at once (the spa's output state has not followed the demand yet), then a speed and off
+        ms = [("mode", i, m) for i in range(4) for m in ("HI", "OFF", "LO", "OFF")]
+        return ms + [("unit", False)] + fs + [("unit", True)] + cs
 
     async def scenario(loop, snap, plan=()):
         from geckolib.const import GeckoConstants as K
@@ -89,6 +91,10 @@ def run(ctx):
             if kind == "mode" and f.pumps:
                 p = rng.choice(f.pumps)
                 mode = rng.choice(list(p.modes) + ["NOPE"])
+                if forced:
+                    if forced[1] >= len(f.pumps) or forced[2] not in f.pumps[forced[1]].modes:
+                        continue
+                    p, mode = f.pumps[forced[1]], forced[2]
                 dem = p._user_demand["demand"]
                 ck = "SetMode %s %s" % (acc_lit(items[dem]), vf.cstr(mode))
                 desc = ("set_mode", p.key, mode)
